@@ -22,7 +22,7 @@ pub fn calpool_case(bs: usize, ba: usize, ptr_off: usize, size: usize, maxmem: u
     let cfg = pool_allocator::Config { bucket_layout: lay(bs, ba) };
     let r = guarded(|| unsafe { pool_allocator::PoolAllocator::new_uninit(maxmem, mem, &cfg) });
     let mut p = match r { None => { out.line("O new = P"); return; } Some(p) => p };
-    out.line(&format!("O new = ok:{}:{}", p.number_of_buckets(), p.relative_start_address()));
+    out.line(&format!("O new = ok:{}:{}:{}", p.number_of_buckets(), p.relative_start_address(), p.bucket_size()));
     match guarded(|| unsafe { p.init(&bump) }) {
         None => { out.line("O init = P"); return; }
         Some(Err(_)) => { out.line("O init = err"); return; }
@@ -54,6 +54,16 @@ pub fn calpool_case(bs: usize, ba: usize, ptr_off: usize, size: usize, maxmem: u
                 match guarded(|| unsafe { a.deallocate(PointerOffset::from_value(v), lay(1, 1)) }) {
                     Some(()) => out.line(&format!("O dealloc {} = ok", v)), None => { out.line(&format!("O dealloc {} = P", v)); return; } }
             },
+            Op::Drain => {
+                let (bsz, bal) = (p.bucket_size(), p.max_alignment());
+                for _ in 0..100000 {
+                    match guarded(|| a.allocate(lay(bsz, bal)).map(|q| q.as_value()).map_err(err_name)) {
+                        None => { out.line(&format!("O alloc {} {} = P", bsz, bal)); return; }
+                        Some(Ok(v)) => { live.push(v); out.line(&format!("O alloc {} {} = ok:{}", bsz, bal, v)); }
+                        Some(Err(k)) => { out.line(&format!("O alloc {} {} = err:{}", bsz, bal, k)); break; }
+                    }
+                }
+            }
             Op::DeallocBad => {}
         }
     }
@@ -114,7 +124,7 @@ pub fn calbump_case(ptr_off: usize, size: usize, ops: &[Op], out: &mut Out) {
                 unsafe { a.deallocate(PointerOffset::from_value(v), lay(1, 1)) };
                 out.line("O reset = ok");
             },
-            Op::DeallocBad => {}
+            Op::DeallocBad | Op::Drain => {}
         }
     }
 }
@@ -157,4 +167,42 @@ pub fn run_codec(args: &Args, out: &mut Out) {
         let pn = PointerOffset::new(o as usize);
         out.line(&format!("O new {} = {}", o, pn.as_value()));
     }
+}
+
+// ------------------------------------------------------------------------------------ drain (search) mode
+struct CalRef<'a> { a: &'a pool_allocator::InitializedPoolAllocator<'a>, p: &'a pool_allocator::PoolAllocator }
+impl<'a> crate::bb_h::Sut for CalRef<'a> {
+    fn alloc(&mut self, s: usize, al: usize) -> Option<Result<u64, &'static str>> {
+        let a = self.a;
+        guarded(|| a.allocate(lay(s, al)).map(|q| q.as_value()).map_err(err_name))
+    }
+    fn dealloc(&mut self, v: u64) -> Option<()> {
+        let a = self.a;
+        guarded(|| unsafe { a.deallocate(PointerOffset::from_value(v), lay(1, 1)) })
+    }
+    fn bucket(&self) -> Option<(usize, usize)> { Some((self.p.bucket_size(), self.p.max_alignment())) }
+}
+
+pub fn drain_calpool(out: &mut Out) {
+    let q = crate::bb_h::drain_params();
+    if q.len() < 5 { return; }
+    let (bs, ba, off, size, maxmem) = (q[0], q[1], q[2], q[3], q[4]);
+    out.line(&format!("C calpool {} {} {} {} {}", bs, ba, off, size, maxmem));
+    let blk = Block::new(off + size + crate::bb_h::GUARD + 64);
+    crate::bb_h::fill_guards(blk.base, off, size);
+    let mut mgmt = vec![0u32; 1 << 15];
+    let bump = BumpAllocator::new(NonNull::new(mgmt.as_mut_ptr() as *mut u8).unwrap(), mgmt.len() * 4);
+    let mem = NonNull::slice_from_raw_parts(NonNull::new((blk.base + off) as *mut u8).unwrap(), size);
+    let cfg = pool_allocator::Config { bucket_layout: lay(bs, ba) };
+    let mut p = match guarded(|| unsafe { pool_allocator::PoolAllocator::new_uninit(maxmem, mem, &cfg) }) { None => { out.line("O new = P"); return; } Some(p) => p };
+    out.line(&format!("O new = ok:{}:{}:{}", p.number_of_buckets(), p.relative_start_address(), p.bucket_size()));
+    match guarded(|| unsafe { p.init(&bump) }) {
+        None => { out.line("O init = P"); return; }
+        Some(Err(_)) => { out.line("O init = err"); return; }
+        Some(Ok(())) => out.line("O init = ok"),
+    }
+    let a = unsafe { p.assume_init() };
+    let start = blk.base + off + p.relative_start_address();
+    let mut sut = CalRef { a: &a, p: &p };
+    crate::bb_h::drain_run(&mut sut, &|v| start + (v >> 8) as usize, blk.base, off, size, out);
 }
